@@ -43,6 +43,16 @@ fn corpus(repo: &str) -> (Corpus, Value) {
         by_item.entry(k.item.as_str()).or_default().push(i);
     }
     let item_groups: Vec<Vec<usize>> = by_item.into_values().filter(|g| g.len() >= 2).collect();
+    let mut by_name: std::collections::BTreeMap<String, Vec<usize>> = Default::default();
+    for (i, k) in h.keys.iter().enumerate() {
+        let toks: Vec<&str> = k.item.split_whitespace().collect();
+        if let Some(p) = toks.iter().position(|t| matches!(*t, "struct" | "enum" | "union")) {
+            if let Some(name) = toks.get(p + 1) {
+                by_name.entry(name.to_string()).or_default().push(i);
+            }
+        }
+    }
+    let name_groups: Vec<Vec<usize>> = by_name.into_values().filter(|g| g.len() >= 2).collect();
     let info = json!({"files": info["files"], "files_unparsed": info["files_unparsed"], "items_with_derive": info["items_with_derive"],
                       "harvested_keys": info["harvested_keys"], "hand_written_fault_keys": info["hand_written_fault_keys"], "derives": info["derives"],
                       "name_collision_groups": collisions.len()});
@@ -50,6 +60,7 @@ fn corpus(repo: &str) -> (Corpus, Value) {
         Corpus {
             collisions,
             item_groups,
+            name_groups,
             env_names: vec![],
             base: h.keys,
             faults: workload::fault_keys(),
@@ -78,7 +89,7 @@ fn cmd_drive(args: &[String]) -> i32 {
     // discovery pre-pass: which environment variables do the expanders ask for? (none, on the pinned tree)
     let mut corpus = corpus;
     {
-        let pre = drive::run_batch(ctx.clone(), Arc::new(Corpus { collisions: corpus.collisions.clone(), item_groups: corpus.item_groups.clone(), base: corpus.base.clone(), faults: corpus.faults.clone(),
+        let pre = drive::run_batch(ctx.clone(), Arc::new(Corpus { collisions: corpus.collisions.clone(), item_groups: corpus.item_groups.clone(), name_groups: corpus.name_groups.clone(), base: corpus.base.clone(), faults: corpus.faults.clone(),
                                                                derives: corpus.derives.clone(), env_names: vec![] }),
                                    Arc::new(RefCache::new()), seed ^ 0x5eed_d15c, 0, 24, jobs, 0);
         corpus.env_names = pre.stats.seam_names.iter().map(|n| (n.clone(), envmodel::candidates(n, &repo))).collect();
